@@ -83,9 +83,10 @@ def respell(items, r, only_brackets=False, prob=0.5):
     return "".join(out), n
 
 
-def splice(items, r, prob=0.15):
+def splice(items, r, prob=0.15, long_run=False):
     out = []
     n = 0
+    done_long = False
     for k, (t, c, lk) in enumerate(items):
         out.append(t)
         if k + 1 >= len(items) or lk == "hdr" or items[k + 1][2] == "hdr":
@@ -100,6 +101,10 @@ def splice(items, r, prob=0.15):
         if r.random() < prob:
             out.append(r.choice(["\\\n", "??/\n"]))
             n += 1
+            if long_run and not done_long and r.random() < 0.1:
+                # very many splices at one and the same token boundary
+                out.append(r.choice(["\\\n", "??/\n"]) * r.choice([99, 100, 101, 1000, 1500]))
+                done_long = True
     return "".join(out), n
 
 
@@ -117,6 +122,10 @@ def hostile(items, r):
             if t[j - 1] != "\\" and "\n" not in t[j - 1:j + 1]:
                 t = t[:j] + r.choice(STRAY[3:9]) + t[j:]
                 n += 1
+        if lk != "hdr" and c == "ws:nl" and k and items[k - 1][1] != "ws:nl" and not items[k - 1][1].startswith("comment") and r.random() < 0.03:
+            # a literal left open at the end of a line (the lexer gives up on it at the line end)
+            out.append((r.choice([" 'q", " \"abc", " '", " L'x"]), "bad", lk))
+            n += 1
         out.append((t, c, lk))
         if lk != "hdr" and c != "ws:nl" and not c.startswith("comment:line") and r.random() < 0.02 and t[-1:] != "\\":
             out.append((r.choice(STRAY), "bad", lk))
@@ -156,7 +165,7 @@ def run_pairs(spec):
                     sh.violation("respelling_changes_tokens", (tag.split(":")[1], _first_tok_diff(base, t1)),
                                  {"mode": "lexpair", "name": p.name, "a": src, "b": v}, {"first_difference": _first_tok_diff(base, t1)})
         for rep in range(3):
-            v, n = splice(items, r, prob=r.choice([0.05, 0.15, 0.5]))
+            v, n = splice(items, r, prob=r.choice([0.05, 0.15, 0.5]), long_run=(rep == 2))
             if n:
                 r1, t1 = toks(p.name, v)
                 sh.case("b\0" + src + "\0" + v)
